@@ -1,10 +1,10 @@
 package main
 
 import (
-	"regexp"
 	"go/ast"
 	"go/token"
 	"go/types"
+	"regexp"
 	"sort"
 	"strings"
 
@@ -919,17 +919,6 @@ func c03Kill(c *Ctx) {
 	if len(killer) == 0 {
 		return
 	}
-	// outermost statement loop
-	var outer *loop
-	for _, lp := range naturalLoops(fn) {
-		if outer == nil || len(lp.body) > len(outer.body) {
-			outer = lp
-		}
-	}
-	if outer == nil {
-		c.undecided("C03-R9: OptimizeStatements has no statement loop")
-		return
-	}
 	isKill := func(x ssa.Instruction) bool {
 		call, ok := x.(*ssa.Call)
 		if !ok {
@@ -938,64 +927,92 @@ func c03Kill(c *Ctx) {
 		sf := staticFn(call)
 		return sf != nil && killer[sf]
 	}
+	// Facts are recorded in OptimizeStatements itself or in a helper it calls for an assignment. In the statement
+	// loop "the same statement" is one trip round the outermost loop containing the update; in a helper it is the call.
 	n := 0
-	eachInstr(fn, func(_ *ssa.BasicBlock, _ int, ins ssa.Instruction) {
-		mu, ok := ins.(*ssa.MapUpdate)
-		if !ok {
-			return
+	for _, g := range c.srcFuncs(compilerPkg) {
+		if g.Parent() != nil || killer[g] || g.Signature.Recv() == nil {
+			continue
 		}
-		f := isFactMap(mu.Map)
-		if f == "" {
-			return
+		if rn := namedOf(g.Signature.Recv().Type()); rn == nil || rn.Obj().Name() != "Optimizer" {
+			continue
 		}
-		n++
-		q := &pathQuery{fn: fn, target: func(x ssa.Instruction) bool { return x == ins }, stop: isKill,
-			cutEdge: func(b *ssa.BasicBlock, si int) bool { return b.Succs[si] == outer.head && outer.body[b] }}
-		hit, path := q.from(outer.head, 0)
-		c.ob("C03-R9", fnKey(fn)+"#fact-recorded-only-after-kill:"+f+"-"+itoa(n), ins.Pos(), hit == nil,
-			"a fact is written into Optimizer."+f+" on a path that has not killed the facts depending on the assigned variable in this statement: copies of its old value (`$ y = x; x = ...; > y`) and remembered expressions that read it stay in force and later uses are rewritten to stale values", c.blockPath(path)...)
-	})
+		loops := naturalLoops(g)
+		eachInstr(g, func(b *ssa.BasicBlock, _ int, ins ssa.Instruction) {
+			mu, ok := ins.(*ssa.MapUpdate)
+			if !ok {
+				return
+			}
+			f := isFactMap(mu.Map)
+			if f == "" {
+				return
+			}
+			n++
+			var outer *loop
+			for _, lp := range loops {
+				if lp.body[b] && (outer == nil || len(lp.body) > len(outer.body)) {
+					outer = lp
+				}
+			}
+			q := &pathQuery{fn: g, target: func(x ssa.Instruction) bool { return x == ins }, stop: isKill}
+			var hit ssa.Instruction
+			var path []*ssa.BasicBlock
+			if outer != nil {
+				q.cutEdge = func(bb *ssa.BasicBlock, si int) bool { return bb.Succs[si] == outer.head && outer.body[bb] }
+				hit, path = q.from(outer.head, 0)
+			} else {
+				hit, path = q.fromEntry()
+			}
+			c.ob("C03-R9", fnKey(g)+"#fact-recorded-only-after-kill:"+f+"-"+itoa(n), ins.Pos(), hit == nil,
+				"a fact is written into Optimizer."+f+" on a path that has not killed the facts depending on the assigned variable in this statement: copies of its old value (`$ y = x; x = ...; > y`) and remembered expressions that read it stay in force and later uses are rewritten to stale values", c.blockPath(path)...)
+		})
+	}
 	c.Sites["C03-R9#fact-recordings"] = n
-	c.floor("C03-R9", 7)
+	c.floor("C03-R9", 3)
 	// a remembered expression must not read its own target: the recording of expressions[key] = target is guarded by a test involving both
 	// (decided as: every update of .expressions lies behind a branch on a call taking the key and the target)
-	eachInstr(fn, func(_ *ssa.BasicBlock, _ int, ins ssa.Instruction) {
-		mu, ok := ins.(*ssa.MapUpdate)
-		if !ok || isFactMap(mu.Map) != "expressions" {
-			return
+	for _, fn := range c.srcFuncs(compilerPkg) {
+		if fn.Parent() != nil || killer[fn] || fn.Signature.Recv() == nil {
+			continue
 		}
-		guarded := false
-		for x := ins.Block(); x != nil; x = x.Idom() {
-			p := x.Idom()
-			if p == nil {
-				break
+		eachInstr(fn, func(_ *ssa.BasicBlock, _ int, ins ssa.Instruction) {
+			mu, ok := ins.(*ssa.MapUpdate)
+			if !ok || isFactMap(mu.Map) != "expressions" {
+				return
 			}
-			iff := ifOf(p)
-			if iff == nil {
-				continue
-			}
-			if derivesFrom(iff.Cond, func(v ssa.Value) bool {
-				call, ok := v.(*ssa.Call)
-				if !ok || len(call.Call.Args) < 2 {
-					return false
+			guarded := false
+			for x := ins.Block(); x != nil; x = x.Idom() {
+				p := x.Idom()
+				if p == nil {
+					break
 				}
-				hasKey, hasTarget := false, false
-				for _, a := range call.Call.Args {
-					if a == mu.Key {
-						hasKey = true
-					}
-					if sameVal(a, mu.Value) || a == mu.Value {
-						hasTarget = true
-					}
+				iff := ifOf(p)
+				if iff == nil {
+					continue
 				}
-				return hasKey && hasTarget
-			}) {
-				guarded = true
+				if derivesFrom(iff.Cond, func(v ssa.Value) bool {
+					call, ok := v.(*ssa.Call)
+					if !ok || len(call.Call.Args) < 2 {
+						return false
+					}
+					hasKey, hasTarget := false, false
+					for _, a := range call.Call.Args {
+						if a == mu.Key {
+							hasKey = true
+						}
+						if sameVal(a, mu.Value) || a == mu.Value {
+							hasTarget = true
+						}
+					}
+					return hasKey && hasTarget
+				}) {
+					guarded = true
+				}
 			}
-		}
-		c.ob("C03-R9", fnKey(fn)+"#remembered-expression-does-not-read-its-target@"+itoa(int(ins.Pos())-int(fn.Pos())), ins.Pos(), guarded,
-			"an expression is remembered as held in its target without testing that it does not read that target (`a = a + 1` would record that a holds a+1, which is false one statement later)")
-	})
+			c.ob("C03-R9", fnKey(fn)+"#remembered-expression-does-not-read-its-target@"+itoa(int(ins.Pos())-int(fn.Pos())), ins.Pos(), guarded,
+				"an expression is remembered as held in its target without testing that it does not read that target (`a = a + 1` would record that a holds a+1, which is false one statement later)")
+		})
+	}
 }
 
 func asInstr(v ssa.Value) ssa.Instruction {
